@@ -94,30 +94,94 @@ theorem strict_stale_after_entry (b : Book) (idx : Nat) (applied appended now lc
   · intro h
     refine ⟨hf, Or.inr ⟨?_, appended, ?_, hbehind, h⟩⟩ <;> simp
 
-/-- a node that believes it is leader is never refused for staleness -/
-theorem leader_never_stale (i : StaleIn) : storeIsStale true i = false := rfl
-
 /-- A 'none' read is refused with ErrStaleRead exactly when the request passes the
 entry guards and `s.isStaleRead` says stale (both entry points) -/
 theorem none_refused_iff (e : Env) :
-    (query .none e = .errStaleRead ↔ (e.pragmaOk ∧ e.opened ∧ e.ctxOk ∧ e.staleRead)) ∧
-    (request .none 0 e = .errStaleRead ↔ (e.pragmaOk ∧ e.opened ∧ e.ctxOk ∧ e.staleRead)) := by
-  obtain ⟨p, o, c, l, v, r, s, li, ap⟩ := e
-  cases p <;> cases o <;> cases c <;> cases s <;>
+    (query .none e = .errStaleRead ↔ (e.pragmaOk ∧ e.opened ∧ e.reqOk ∧ e.ctxOk ∧ e.staleRead)) ∧
+    (request .none 0 e = .errStaleRead ↔ (e.pragmaOk ∧ e.opened ∧ e.reqOk ∧ e.ctxOk ∧ e.staleRead)) := by
+  obtain ⟨p, o, c, l, v, r, s, li, ap, rq, th⟩ := e
+  cases p <;> cases o <;> cases c <;> cases s <;> cases rq <;>
     simp [query, request, requestTail, resolveAuto, linStage]
 
 /-- ... i.e., composed with the staleness decision: refused iff the node is not leader and
 the documented rule says stale -/
 theorem none_refused_rule (e : Env) (i : StaleIn) (hs : e.staleRead = storeIsStale e.isLeader i)
-    (hg : e.pragmaOk = true ∧ e.opened = true ∧ e.ctxOk = true) :
-    query .none e = .errStaleRead ↔
-      (e.isLeader = false ∧ i.freshness ≠ 0 ∧
+    (hg : e.pragmaOk = true ∧ e.opened = true ∧ e.reqOk = true ∧ e.ctxOk = true) :
+    let rule := (e.isLeader = false ∧ i.freshness ≠ 0 ∧
         (satSub i.now i.lastContact > i.freshness ∨
          (i.strict = true ∧ ∃ a, i.appendedAt = some a ∧ i.fsmIndex ≠ i.commitIndex ∧
-            satSub i.fsmUpdate a > i.freshness))) := by
-  rw [(none_refused_iff e).1, hs, ← stale_iff]
-  obtain ⟨h1, h2, h3⟩ := hg
-  cases hl : e.isLeader <;> simp [storeIsStale, h1, h2, h3]
+            satSub i.fsmUpdate a > i.freshness)))
+    (query .none e = .errStaleRead ↔ rule) ∧ (request .none 0 e = .errStaleRead ↔ rule) := by
+  intro rule
+  obtain ⟨h1, h2, h3, h4⟩ := hg
+  have key : (e.pragmaOk ∧ e.opened ∧ e.reqOk ∧ e.ctxOk ∧ e.staleRead) ↔ rule := by
+    simp only [rule]
+    rw [hs, ← stale_iff]
+    cases hl : e.isLeader <;> simp [storeIsStale, h1, h2, h3, h4]
+  exact ⟨by rw [(none_refused_iff e).1]; exact key, by rw [(none_refused_iff e).2]; exact key⟩
+
+/-- a node that believes it is leader never refuses a 'none' read for staleness, whatever the
+freshness bound and the timing (both entry points) -/
+theorem leader_none_never_refused (e : Env) (i : StaleIn) (hl : e.isLeader = true)
+    (hs : e.staleRead = storeIsStale e.isLeader i) :
+    query .none e ≠ .errStaleRead ∧ request .none 0 e ≠ .errStaleRead := by
+  have hf : e.staleRead = false := by rw [hs, hl]; rfl
+  constructor
+  · intro h; have := ((none_refused_iff e).1.1 h).2.2.2.2; rw [hf] at this; cases this
+  · intro h; have := ((none_refused_iff e).2.1 h).2.2.2.2; rw [hf] at this; cases this
+
+/-- the bookkeeping over WHOLE histories of FSM events (entries applied one by one, snapshot
+installs, fast restarts): the two times always are those of the last entry applied one by
+one in this process (`lastApply`), and unset if there was none -/
+theorem book_times (evs : List BookEv) (b : Book) :
+    (b.run evs).appendedAt = (lastApply (b.appendedAt.map (fun a => (b.fsmUpdate, a))) evs).map (·.2) ∧
+    ∀ u a, lastApply (b.appendedAt.map (fun a => (b.fsmUpdate, a))) evs = some (u, a) → (b.run evs).fsmUpdate = u := by
+  induction evs generalizing b with
+  | nil =>
+    simp only [Book.run, List.foldl_nil, lastApply]
+    cases h : b.appendedAt <;> simp
+  | cons e evs ih =>
+    cases e with
+    | apply idx u a =>
+      have := ih (b.apply idx u a)
+      simpa [Book.run, Book.step, lastApply, Book.apply] using this
+    | restore li =>
+      have := ih (b.restore li)
+      simpa [Book.run, Book.step, lastApply, Book.restore] using this
+    | fastOpen li =>
+      have := ih (b.fastOpen li)
+      simpa [Book.run, Book.step, lastApply, Book.fastOpen] using this
+
+/-- **Strict mode over whole histories.** After ANY history of FSM events, a node in contact
+with the leader but behind refuses a strict read exactly when the last entry it applied one
+by one was applied more than the bound after it was appended; with no such entry (fresh
+start, snapshot installs only) it never refuses. -/
+theorem strict_stale_history (evs : List BookEv) (now lc : Int) (commit : Nat)
+    (f : Int) (hf : f ≠ 0) (h1 : minI64 ≤ f) (h2 : f < maxI64)
+    (hcontact : ¬ now - lc > f) (hbehind : (Book.run {} evs).fsmIdx ≠ commit) :
+    isStaleRead ((Book.run {} evs).staleIn now lc commit f true) = true ↔
+      ∃ u a, lastApply Option.none evs = some (u, a) ∧ u - a > f := by
+  obtain ⟨hA, hU⟩ := book_times evs {}
+  simp only [Option.map_none] at hA hU
+  rw [stale_iff_documented _ h1 h2]
+  simp only [Book.staleIn]
+  constructor
+  · rintro ⟨_, h | ⟨_, a, ha, _, hl⟩⟩
+    · exact absurd h hcontact
+    · rw [hA] at ha
+      cases hla : lastApply Option.none evs with
+      | none => rw [hla] at ha; cases ha
+      | some p =>
+        obtain ⟨u, a'⟩ := p
+        rw [hla] at ha
+        have : a' = a := by simpa using ha
+        subst this
+        refine ⟨u, a', rfl, ?_⟩
+        rw [hU u a' hla] at hl; exact hl
+  · rintro ⟨u, a, hla, hl⟩
+    refine ⟨hf, Or.inr ⟨by simp, a, ?_, hbehind, ?_⟩⟩
+    · rw [hA, hla]; rfl
+    · rw [hU u a hla]; exact hl
 
 /-! ### weak and auto -/
 
@@ -137,13 +201,14 @@ theorem weak_only_on_leader (lvl : Level) (e : Env) :
 
 /-- a node that is not leader refuses a weak read with ErrNotLeader (so the caller
 forwards it to the leader) -/
-theorem weak_refused_off_leader (e : Env) (hg : e.pragmaOk = true ∧ e.opened = true ∧ e.ctxOk = true)
+theorem weak_refused_off_leader (e : Env)
+    (hg : e.pragmaOk = true ∧ e.opened = true ∧ e.reqOk = true ∧ e.ctxOk = true)
     (hl : e.isLeader = false) :
     query .weak e = .errNotLeader ∧ request .weak 0 e = .errNotLeader := by
-  obtain ⟨p, o, c, l, v, r, s, li, ap⟩ := e
-  obtain ⟨h1, h2, h3⟩ := hg
-  simp only at h1 h2 h3 hl
-  subst h1 h2 h3 hl
+  obtain ⟨p, o, c, l, v, r, s, li, ap, rq, th⟩ := e
+  obtain ⟨h1, h2, h4, h3⟩ := hg
+  simp only at h1 h2 h3 h4 hl
+  subst h1 h2 h3 h4 hl
   simp [query, request, requestTail, resolveAuto, linStage]
 
 /-- 'auto' IS weak on a voter and none on a non-voter: the whole outcome coincides, for
@@ -156,8 +221,8 @@ theorem auto_is_weak_on_voter_none_on_nonvoter (e : Env) (nRW : Nat) :
 /-- before the `fix:` commit, Request did not resolve AUTO: a voting follower served the
 read locally (weak would refuse), a non-voter ignored the freshness bound -/
 theorem request_auto_old_witness :
-    let follower : Env := ⟨true, true, true, false, some true, true, false, .strongNeeded, .notLeader⟩
-    let nonvoter : Env := ⟨true, true, true, false, some false, true, true, .strongNeeded, .notLeader⟩
+    let follower : Env := ⟨true, true, true, false, some true, true, false, .strongNeeded, .notLeader, true, true⟩
+    let nonvoter : Env := ⟨true, true, true, false, some false, true, true, .strongNeeded, .notLeader, true, true⟩
     requestOld .auto 0 follower = .localRead .auto ∧ request .auto 0 follower = .errNotLeader ∧
     requestOld .auto 0 nonvoter = .localRead .auto ∧ request .auto 0 nonvoter = .errStaleRead := by
   decide
@@ -169,14 +234,15 @@ a strong read in the term it read at the start, (2) believed it was leader and w
 ready, (3) confirmed leadership with a quorum (VerifyLeader), (4) saw the same term
 afterwards, and (5) had applied every command entry at or below the commit index it
 took at the start — for every reachable log `run {} es`, and every later state. -/
-theorem linearizable_returns_only_after (es es' : List Ev) (le : LinEnv) (e : Env)
-    (hnode : le.node = run {} es) (hlater : le.later = run le.node es')
+theorem linearizable_returns_only_after (es es1 es2 : List Ev) (le : LinEnv) (e : Env)
+    (hnode : le.node = run {} es) (hscan : le.scanNode = run le.node es1) (hlater : le.later = run le.scanNode es2)
+    (hno1 : LinRead.NoReopen es1) (hno2 : LinRead.NoReopen es2)
     (hlin : e.lin = waitLin le)
     (h : query .linearizable e = .localRead .linearizable ∨
          request .linearizable 0 e = .localRead .linearizable) :
     le.readTerm = le.strongReadTerm ∧ le.isLeader = true ∧ le.ready = true ∧
     le.verifyOk = true ∧ le.termAfter = le.readTerm ∧
-    ∀ j, j ≤ le.node.commit → le.node.typeAt j = some (some .command) → j ≤ le.later.handed := by
+    ∀ j, j ≤ le.node.commit → le.scanNode.typeAt j = some (some .command) → j ≤ le.later.handed := by
   have hok : waitLin le = .ok := by
     rw [← hlin]
     have key : ∀ l1, resolveAuto .linearizable e.voter = some l1 → linStage l1 e = .ok .linearizable →
@@ -211,23 +277,14 @@ theorem linearizable_returns_only_after (es es' : List Ev) (le : LinEnv) (e : En
   · simp [h2, h3, h4, h5'] at hok
   have h5 : le.termAfter = le.strongReadTerm := by simpa using h5'
   simp only [h2, h3, h4, h5, Bool.not_true, Bool.false_eq_true, if_false, not_true_eq_false] at hok
-  have hr : LinRead.reached le.later (LinRead.target le.node) = true := by
-    by_cases hr : LinRead.reached le.later (LinRead.target le.node) = true
+  have hr : LinRead.reached le.later (LinRead.targetAt le.scanNode le.node.commit) = true := by
+    by_cases hr : LinRead.reached le.later (LinRead.targetAt le.scanNode le.node.commit) = true
     · exact hr
     · simp [hr] at hok
   refine ⟨h1, rfl, rfl, rfl, by rw [h5, h1], ?_⟩
-  intro j hj hc
   have hinv : Inv le.node := by rw [hnode]; exact LinRead.inv_run _ es LinRead.inv_init
-  have hinv2 : Inv le.later := by rw [hlater]; exact LinRead.inv_run _ es' hinv
-  have hm := LinRead.mono_run le.node es'
-  rw [← hlater] at hm
-  rcases LinRead.scan_spec_B le.node hinv le.node.commit hinv.commit_le_len j hj hc with hb | hb
-  · have : LinRead.target le.node ≤ le.later.fsmIdx := by
-      simpa [LinRead.reached] using hr
-    have := hinv2.fsm_le_handed
-    unfold LinRead.target at *
-    omega
-  · omega
+  rw [hlater, hscan] at hr ⊢
+  exact LinRead.wait_ok_applied le.node hinv es1 es2 hno1 hno2 hr
 
 /-- the first linearizable read of a term is not answered from local state: it is
 upgraded and goes through the raft log as a strong read on a ready leader -/
@@ -272,6 +329,19 @@ theorem fsmApply_records_every_entry :
       (fun c => (Expect.ReadPath.callsOf (deferBlock Gen.ReadPath.fsmApply)).contains c) = true := by
   decide
 
+/-- `IsVoter` — what AUTO is resolved with — asks raft for the CURRENT configuration on every
+call (the model's `voter` input is the node's suffrage in the configuration at the time of
+the call, not a remembered one) -/
+theorem isVoter_reads_configuration :
+    Expect.ReadPath.callsOf Gen.ReadPath.isVoter = ["s.open.Is", "s.raft.GetConfiguration"] := by decide
+
+/-- `fsmRestore` moves the FSM index (and signals the target) but records neither of the two
+times: what `Book.restore` transcribes -/
+theorem fsmRestore_keeps_times :
+    let cs := Expect.ReadPath.callsOf Gen.ReadPath.fsmRestore
+    cs.contains "s.fsmIdx.Store" = true ∧ cs.contains "s.fsmUpdateTime.Store" = false ∧
+    cs.contains "s.appendedAtTime.Store" = false := by decide
+
 /-- the exits of `IsStaleRead`, in source order, are the branches of the model -/
 theorem isStaleRead_exits :
     Expect.ReadPath.retsOf Gen.ReadPath.isStaleReadFn =
@@ -297,8 +367,8 @@ example : isStaleRead ⟨10, 9, 2000000000, some 0, 4, 6, 1000000000, true⟩ = 
 -- a leader that has done its strong read serves a linearizable read locally
 example :
     let n := run {} [.append .noop, .append .command, .commit 2, .fsm, .fsm, .append .config, .commit 3]
-    let le : LinEnv := ⟨2, 2, true, true, n, true, 2, n⟩
-    let e : Env := ⟨true, true, true, true, some true, true, false, waitLin le, .ok⟩
+    let le : LinEnv := ⟨2, 2, true, true, n, true, 2, n, n⟩
+    let e : Env := ⟨true, true, true, true, some true, true, false, waitLin le, .ok, true, true⟩
     query .linearizable e = .localRead .linearizable ∧ query .weak e = .localRead .weak ∧
     query .auto e = .localRead .weak := by decide
 
